@@ -11,7 +11,8 @@ THEOREMS = ["C12_default_roundtrip_partial", "C12_description_roundtrip_partial"
             "C12_members_roundtrip_kinds", "C12_directive_roundtrip", "C12_text_roundtrip_type_references",
             "C12_text_is_ast_print_partial", "C12_text_parse_partial", "C12_members_roundtrip_document",
             "C12_text_roundtrip_partial", "C12_fixpoint_partial", "C12_fixpoint_declares_again",
-            "C12_document_rules_ok", "C12_members_roundtrip_guarded"]
+            "C12_document_rules_ok", "C12_members_roundtrip_guarded", "C12_default_literal_plain",
+            "C12_no_defaults_guard"]
 AXIOMS_OK = []
 RUN_MODULE = "Run.C12run Schema.SdlPrint Spec.SdlRoundtripSpec"
 AGREE = "agree_C12"
